@@ -4,6 +4,7 @@ use std::time::Duration;
 
 pub mod c08;
 pub mod c09;
+pub mod c10;
 pub mod c12;
 pub mod c16;
 pub mod e1;
@@ -46,6 +47,7 @@ pub fn dispatch(id: &str, tier: Tier, replay: Option<&str>, budget: Duration) ->
         "C16" => c16::run(&mut report),
         "C08" => c08::run(&mut report),
         "C09" => c09::run(&mut report),
+        "C10" => c10::run(&mut report),
         "C12" => c12::run(&mut report),
         _ => {
             eprintln!("unknown property {id}");
